@@ -123,7 +123,7 @@ theorem delIng_exact (s : St) (key : String) (f : String) :
 
 theorem delTs_exact (s : St) (key : String) (f : String) :
     (step s (.delTs key)).stream.get? f = if f = tsFileKey key then none else s.stream.get? f := by
-  simp only [step]
+  simp only [step, delTs]
   split <;> exact Map.get?_erase _ _ _
 
 /-- Operations on one directory never touch the other. -/
@@ -133,7 +133,7 @@ theorem dirs_independent (s : St) (ns name key : String) (uid : Nat) (host : Str
     (step s (.addIng ns name uid)).stream = s.stream ∧ (step s (.delIng key)).stream = s.stream := by
   refine ⟨?_, ?_, rfl, rfl, rfl, rfl⟩
   · simp only [step]; split <;> (try split) <;> rfl
-  · simp only [step]; split <;> rfl
+  · simp only [step, delTs]; split <;> rfl
 
 /-- **The TLS-passthrough hosts file lists exactly the registered passthrough pairs** whenever a
 TransportServer operation changes them (add of a passthrough TransportServer, its delete, its
@@ -155,9 +155,71 @@ theorem passthrough_removed_on_delete (s : St) (key : String) (h : s.pairs.conta
   have hs : step s (.delTs key) =
       { s with stream := s.stream.erase (tsFileKey key), pairs := s.pairs.erase key,
                ptFile := some (renderPt (s.pairs.erase key)) } := by
-    simp [step, h]
+    simp [step, delTs, h]
   rw [hs]
   exact ⟨by simp [Map.get?_erase], rfl⟩
+
+/-- The hosts file on disk is the rendering of the registered passthrough pairs. -/
+def PtOk (s : St) : Prop := s.ptFile = some (renderPt s.pairs)
+
+theorem delTs_ptOk (s : St) (key : String) (h : PtOk s) : PtOk (delTs s key) := by
+  simp only [delTs, PtOk]
+  split
+  · rfl
+  · exact h
+
+theorem delTs_pairs_none (s : St) (key : String) : (delTs s key).pairs.get? key = none := by
+  simp only [delTs]
+  split
+  · simp [Map.get?_erase]
+  · rename_i hc
+    simp only [Map.contains] at hc
+    cases hg : Map.get? s.pairs key with
+    | none => rfl
+    | some v => simp [hg] at hc
+
+theorem delTs_pairs_mono (s : St) (key k : String) (h : s.pairs.get? k = none) : (delTs s key).pairs.get? k = none := by
+  simp only [delTs]
+  split
+  · simp only [Map.get?_erase]; split <;> simp [h]
+  · exact h
+
+theorem delTs_stream (s : St) (key f : String) :
+    (delTs s key).stream.get? f = if f = tsFileKey key then none else s.stream.get? f := by
+  simp only [delTs]
+  split <;> exact Map.get?_erase _ _ _
+
+/-- **The batch path (`UpdateTransportServers(nil, keys)`, taken when a namespace stops being watched) removes exactly what the
+single delete removes**: every listed TransportServer's stream file and passthrough host are gone afterwards, and the hosts file
+still is the rendering of the registered pairs — for every list of keys (seed C10-5). -/
+theorem batchTs_removes (s : St) (keys : List String) (h : PtOk s) :
+    PtOk (step s (.batchTs keys)) ∧
+    (∀ k ∈ keys, (step s (.batchTs keys)).pairs.get? k = none ∧ (step s (.batchTs keys)).stream.get? (tsFileKey k) = none) := by
+  simp only [step]
+  induction keys generalizing s with
+  | nil => exact ⟨h, by simp⟩
+  | cons k ks ih =>
+    simp only [List.foldl_cons]
+    have := ih (delTs s k) (delTs_ptOk s k h)
+    refine ⟨this.1, ?_⟩
+    intro k' hk'
+    rcases List.mem_cons.mp hk' with rfl | hin
+    · -- removed by the first step, and never brought back by the rest
+      have hp : ∀ (ks : List String) (t : St), t.pairs.get? k' = none → t.stream.get? (tsFileKey k') = none →
+          (ks.foldl delTs t).pairs.get? k' = none ∧ (ks.foldl delTs t).stream.get? (tsFileKey k') = none := by
+        intro ks
+        induction ks with
+        | nil => intro t h1 h2; exact ⟨h1, h2⟩
+        | cons a as ih2 =>
+          intro t h1 h2
+          simp only [List.foldl_cons]
+          refine ih2 _ (delTs_pairs_mono t a k' h1) ?_
+          rw [delTs_stream]; split <;> simp [h2]
+      exact hp ks _ (delTs_pairs_none s k') (by rw [delTs_stream]; simp)
+    · exact this.2 k' hin
+
+theorem batchTs_is_iterated_delete (s : St) (keys : List String) :
+    step s (.batchTs keys) = keys.foldl (fun t k => step t (.delTs k)) s := rfl
 
 theorem passthrough_removed_on_retype (s : St) (ns name : String) (uid : Nat)
     (h : s.pairs.contains (ns ++ "/" ++ name) = true) :
